@@ -64,6 +64,8 @@ class SimulationAlgorithmGraphBase
 
       for(int i=0; i<n_edges; i++)
           {
+          if(edge_i[i] == edge_j[i]) continue; // a node is not its own neighbour (a self-loop carries no flux)
+
           mesh_neighbor_n[edge_i[i]]++;
           mesh_neighbor_n[edge_j[i]]++;
 
